@@ -63,6 +63,24 @@ def query (o : Ops E Box Ray) (r : Ray) : Tree E Box → Bool
   | .leaf b es => o.boxHit r b && es.any (o.hit r)
   | .node b l rt => o.boxHit r b && (query o r l || query o r rt)
 
+def Tree.size : Tree E Box → Nat
+  | .leaf _ _ => 1
+  | .node _ l r => 1 + l.size + r.size
+
+def stackSize (st : List (Tree E Box)) : Nat := (st.map Tree.size).sum
+
+/-- the code as written: `PreorderIter::next` pops a node from an explicit stack, drops it when the ray misses its box, otherwise pushes
+its right and then its left child (so the left one is popped first); `BVH::intersects` looks into the leaves that come out and stops
+at the first element hit -/
+def walk (o : Ops E Box Ray) (r : Ray) : List (Tree E Box) → Bool
+  | [] => false
+  | .leaf b es :: st => if o.boxHit r b then (if es.any (o.hit r) then true else walk o r st) else walk o r st
+  | .node b l rt :: st => if o.boxHit r b then walk o r (l :: rt :: st) else walk o r st
+termination_by st => stackSize st
+decreasing_by
+  all_goals simp only [stackSize, List.map_cons, List.sum_cons, Tree.size]
+  all_goals omega
+
 def items : Tree E Box → List E
   | .leaf _ es => es
   | .node _ l r => items l ++ items r
